@@ -369,13 +369,13 @@ def r4_cache_key(ctx):
         ctx.ob('C10.R4', 'insert-covers-key', {c.lower() for c in pkcols} <= icols, b.loc(bb, t), 'INSERT writes %d columns including the whole key: %s' % (len(icols), {c.lower() for c in pkcols} <= icols))
 
 
-def r4b_source_hash_covers_src(ctx):
+def r4b_source_hash_covers_src(ctx, rid='C10.R4b', lead=''):
     import re as _re
-    ctx.rule('C10.R4b', 'P9 constant: the source checksum that keys the documentation cache of a path dependency covers every file under `src/` '
+    ctx.rule(rid, lead + 'P9 constant: the source checksum that keys the documentation cache of a path dependency covers every file under `src/` '
              '(default include pattern `src/**`, no extension filter): `include!` / `include_str!` can pull any of them into the documentation, '
              'and a file left out of the hash lets a warm cache serve documentation generated from its old contents.')
     bodies = ctx.fb.bodies_of_item('rustdoc_processor', 'rustdoc_processor::cache::checksum::get_file_paths')
-    if not ctx.need('C10.R4b', 'rustdoc_processor::cache::checksum::get_file_paths', bodies):
+    if not ctx.need(rid, 'rustdoc_processor::cache::checksum::get_file_paths', bodies):
         return
     strs = set()
     for b in bodies:
@@ -395,7 +395,7 @@ def r4b_source_hash_covers_src(ctx):
                         from ..flow import promoted_strs
                         strs |= set(promoted_strs(ctx.fb, b, int(o['promoted'])))
     whole = sorted(x for x in strs if _re.match(r'^src/\*\*(/\*)?$', x))
-    ctx.ob('C10.R4b', 'src-fully-hashed', bool(whole), bodies[0].loc(), 'include patterns among the constants of get_file_paths: %s; covering all of src/: %s' % (
+    ctx.ob(rid, 'src-fully-hashed', bool(whole), bodies[0].loc(), 'include patterns among the constants of get_file_paths: %s; covering all of src/: %s' % (
         sorted(x for x in strs if '/' in x or '*' in x)[:6], whole or 'NONE'))
 
 
